@@ -170,10 +170,11 @@ pub fn gen_op(sh: &Shape, cur: &D, rng: &mut Rng, depth: usize) -> Op {
                 _ => Op::FPush(gen_init(e, rng, depth + 1)),
             }
         }
-        Shape::UStruct(fs) if fs.len() >= 2 => {
-            // a write to a sized field, or — more often — an operation on the unsized last field (`msg.tail.push(..)`)
+        Shape::UStruct(fs) if fs.len() >= 2 || matches!(fs.last(), Some(Shape::Vec(..) | Shape::Str(..) | Shape::Flex(..))) => {
+            // a write to a sized field, or — more often — an operation on the unsized last field (`msg.tail.push(..)`); a struct that is
+            // nothing but its tail always gets the latter
             let lastsh = fs.last().unwrap();
-            if rng.chance(3, 5) && matches!(lastsh, Shape::Vec(..) | Shape::Str(..) | Shape::Flex(..) | Shape::UStruct(..)) {
+            if (fs.len() < 2 || rng.chance(3, 5)) && matches!(lastsh, Shape::Vec(..) | Shape::Str(..) | Shape::Flex(..) | Shape::UStruct(..)) {
                 let ld = match cur { D::Struct(_, l) => (**l).clone(), _ => D::VecEmpty };
                 Op::Last(Box::new(gen_op(lastsh, &ld, rng, depth + 1)))
             } else {
@@ -198,6 +199,9 @@ pub fn gen_op(sh: &Shape, cur: &D, rng: &mut Rng, depth: usize) -> Op {
             let sized: Vec<usize> = vs[v].iter().enumerate().filter(|(_, f)| f.is_sized()).map(|(j, _)| j).collect();
             if sized.is_empty() { Op::Assign(cur.clone()) } else { let i = sized[rng.below(sized.len() as u64) as usize]; Op::SetField(v, i, gen_sized(&vs[v][i], rng)) }
         }
+        // inside a history of an enclosing container only the current content is assigned again (it fits, so the step cannot fail): a
+        // *failed* assignment empties a container first (known finding F8b, C18's subject) and the abstract sequence would not follow it
+        _ if depth > 0 => Op::Assign(cur.strip_def()),
         _ => Op::Assign(gen_init(sh, rng, depth + 1)),
     }
 }
